@@ -258,7 +258,8 @@ def bound_pair(draw, n):
     e_opts = [hi] + ([hi - n] if 0 < hi < n else []) + ([None] if hi == n else [])
     if hi == 0 and lo == 0:
         e_opts = [0] + ([-n] if n > 0 else [])
-    return lo, hi, {"slice": [draw(st.sampled_from(s_opts)), draw(st.sampled_from(e_opts))]}
+    # an explicit step of 1 is the same slice ("resolved as for arrays")
+    return lo, hi, {"slice": [draw(st.sampled_from(s_opts)), draw(st.sampled_from(e_opts))], "step": draw(st.sampled_from([None, None, 1]))}
 
 
 @st.composite
@@ -291,7 +292,7 @@ def _mk_key(k):
         return None
     if "scalar" in k:
         return k["scalar"]
-    return slice(k["slice"][0], k["slice"][1])
+    return slice(k["slice"][0], k["slice"][1], k.get("step"))
 
 
 def check_sampled(case, ctx: Ctx):
@@ -333,9 +334,16 @@ def check_sampled(case, ctx: Ctx):
                  h5opts={"compression": None}, mode="a")
             F = model.dense(rows, n, symmetric, col, dtype=float)
         out = case["out"]
-        sel = clr.matrix(field=field, balance=False, sparse=(out == "sparse"),
-                         as_pixels=out.startswith("pixels"), join=(out == "pixels-join"),
-                         ignore_index=(out != "pixels-index"), chunksize=case["chunksize"])
+        mkw = dict(field=field, balance=False, sparse=(out == "sparse"), as_pixels=out.startswith("pixels"),
+                   join=(out == "pixels-join"), ignore_index=(out != "pixels-index"), chunksize=case["chunksize"])
+        if len(rows) % 2 == 0:
+            # options equal to their documented defaults are left out (field None, dense, not as pixels, no join,
+            # ignore_index True; the largest chunk size stands for "not given")
+            for name, default in (("field", None), ("sparse", False), ("as_pixels", False), ("join", False), ("ignore_index", True),
+                                  ("chunksize", 10**7)):
+                if mkw[name] == default and type(mkw[name]) is type(default):
+                    del mkw[name]
+        sel = clr.matrix(**mkw)
         if case["oob"]:
             k = n + 0 if case["oob"] == "scalar-high" else -n - 1
             must_raise(f"matrix()[{k}] on {n} bins (out of range scalar)", lambda: sel[k])
